@@ -31,8 +31,14 @@ def run_check(prop, tier, seed):
             ctx.mismatch('uncaught-exception', {'traceback': text[-3000:]}, f'{type(e).__name__}: {e}'[:300], 'no exception expected')
             traceback.print_exc()
             return ctx.finish()
-        traceback.print_exc()       # infrastructure error: never a VIOLATION
-        print(f'{prop}: harness error (exit 2)', file=sys.stderr)
+        traceback.print_exc()
+        if ctx.violations or ctx.mismatches or any(not ok for _, ok, _ in ctx.obligations):
+            # the harness itself tripped (typically while shrinking or describing a failure it had already found on a changed
+            # tree): what was established before the error is still reported; the error is recorded next to it
+            ctx.extra['harness_error_after_findings'] = f'{type(e).__name__}: {str(e)[:300]}'
+            print(f'{prop}: harness error after findings were recorded; reporting them', file=sys.stderr)
+            return ctx.finish()
+        print(f'{prop}: harness error (exit 2)', file=sys.stderr)      # infrastructure error: never a VIOLATION
         return 2
     return ctx.finish()
 
